@@ -381,6 +381,31 @@ def features_tables(repo):
 def emit_features(ft):
     o = ["-- GENERATED by tools/translate.py from Cargo.toml, src/lib.rs and the module `use` lists; do not edit.",
          "import QtyModel.Features", "set_option maxRecDepth 8192", "namespace Qty.Gen.Features", "open Qty", ""]
+    o.append("/-- `[features]` of Cargo.toml resolved the way cargo reads an entry: a plain name enables that")
+    o.append("feature; `dep:x` enables the optional dependency `x` only; `x/f` enables the optional dependency")
+    o.append("`x` AND (no `dep:x` being used for it) its implicit feature `x`; the weak form `x?/f` enables nothing -/")
+    o.append("def featuresResolved : List (Text × List Text) := [")
+    def resolve(entries):
+        out = []
+        for e in entries:
+            if e.startswith("dep:"):
+                continue
+            if "?/" in e:
+                continue
+            if "/" in e:
+                d = e.split("/")[0]
+                if d in ft["optional"]:
+                    out.append(d)
+                continue
+            out.append(e)
+        return out
+    resolved = {k: resolve(v) for k, v in ft["features"].items()}
+    for d in ft["optional"]:
+        if d not in resolved and not any(("dep:" + d) in v for v in ft["features"].values()):
+            resolved[d] = []          # implicit feature of an optional dependency
+    o.append(rows((f"({lean_text(k)}, [" + ", ".join(lean_text(x) for x in v) + "])", f"{k} -> {v}")
+                  for k, v in resolved.items()))
+    o.append("]")
     o.append("/-- `[features]` of Cargo.toml: feature ↦ what it enables (as written) -/")
     o.append("def features : List (Text × List Text) := [")
     o.append(rows((f"({lean_text(k)}, [" + ", ".join(lean_text(x) for x in v) + "])", f"{k} = {v}")
